@@ -218,7 +218,7 @@ var pidName = map[string]string{
 
 var aidSpelling = map[string]string{
 	"UNSUPPORTED": `"ACTION_UNSUPPORTED"`, "FEE": `"ACTION_FEE"`, "SWAP": `"ACTION_SWAP"`,
-	"A7": `7`, "A9": `9`, "N0": `0`, "N1": `1`, "N2": `2`, "AUNKNOWN": `"ACTION_FOO"`,
+	"A7": `7`, "A9": `9`, "A3": `3`, "A4": `4`, "N0": `0`, "N1": `1`, "N2": `2`, "AUNKNOWN": `"ACTION_FOO"`,
 }
 
 var aidName = map[string]string{
@@ -329,6 +329,14 @@ func feeValueString(f Fee) string {
 		return big256
 	case "OVER256":
 		return over256
+	case "SPACE":
+		return " " + strconv.FormatInt(f.V, 10)
+	case "TRAILSP":
+		return strconv.FormatInt(f.V, 10) + " "
+	case "NEWLINE":
+		return strconv.FormatInt(f.V, 10) + "\n"
+	case "TAB":
+		return "\t" + strconv.FormatInt(f.V, 10)
 	}
 	return strconv.FormatInt(f.V, 10)
 }
